@@ -4,6 +4,10 @@ use chrono::{DateTime, Duration, NaiveDateTime, Utc};
 /// current time in milliseconds since unix epoch
 ///
 pub fn now() -> i64 {
+    #[cfg(feature = "verif")]
+    if let Some(t) = verif_clock::get() {
+        return t;
+    }
     let dt = Utc::now();
     dt.timestamp_millis()
 }
@@ -21,4 +25,25 @@ pub fn date_next_day(date_time: i64) -> i64 {
     let date = date + Duration::days(1);
     let ds: NaiveDateTime = date.date_naive().and_hms_opt(0, 0, 0).unwrap();
     ds.and_utc().timestamp_millis()
+}
+
+/// verification hook: process-wide clock override (i64::MIN = real clock)
+#[cfg(feature = "verif")]
+pub mod verif_clock {
+    use std::sync::atomic::{AtomicI64, Ordering};
+    static CLOCK: AtomicI64 = AtomicI64::new(i64::MIN);
+    pub fn set(t: i64) {
+        CLOCK.store(t, Ordering::SeqCst);
+    }
+    pub fn clear() {
+        CLOCK.store(i64::MIN, Ordering::SeqCst);
+    }
+    pub fn get() -> Option<i64> {
+        let t = CLOCK.load(Ordering::SeqCst);
+        if t == i64::MIN {
+            None
+        } else {
+            Some(t)
+        }
+    }
 }
